@@ -115,6 +115,9 @@ def gen_value(r, sec, key, kind, src):
     d = {}
     for _ in range(r.randint(1, 2)):
         k = r.choice(['chapter', 'section', 'zq', 'fig'])
+        if sub != 'links' and r.random() < 0.3:
+            # dotted names, as loggers have them (parse.environments)
+            k = r.choice(['parse.environments', 'render.images', 'zq.a_b'])
         if src == 'argv' and r.random() < 0.4:
             # keys given on the command line keep their spelling (a configuration file's keys are lower-cased by its parser)
             k = r.choice(['Chapter', 'RR', 'zQ', 'FIG', 'section'])
